@@ -284,3 +284,56 @@ func PutListHdr(b []byte, et byte, n int) []byte { return PutBE32(append(b, et),
 func PutMapHdr(b []byte, kt, vt byte, n int) []byte {
 	return PutBE32(append(b, kt, vt), n)
 }
+
+// TDeepEq compares two well-formed values of type t structurally: struct fields and map
+// entries are matched by id / key bytes regardless of order (re-encoding a struct or a map in a
+// different member order denotes the same value), list and set elements are compared in order.
+func TDeepEq(a []byte, b []byte, t byte, depth int) bool {
+	if depth < 0 {
+		return false
+	}
+	switch t {
+	case TSTRUCT, TMAP:
+		ka, ok1 := TChildren(a, t, depth)
+		kb, ok2 := TChildren(b, t, depth)
+		if !ok1 || !ok2 || len(ka) != len(kb) {
+			return false
+		}
+		if t == TMAP && len(ka) > 0 && (a[0] != b[0] || a[1] != b[1]) {
+			return false
+		}
+		for i := range ka {
+			found := false
+			for j := range kb {
+				same := false
+				if t == TSTRUCT {
+					same = ka[i].ID == kb[j].ID && ka[i].Typ == kb[j].Typ
+				} else {
+					same = BytesEq(a, ka[i].KStart, ka[i].KEnd, b, kb[j].KStart, kb[j].KEnd)
+				}
+				if same {
+					if TDeepEq(a[ka[i].Start:ka[i].End], b[kb[j].Start:kb[j].End], ka[i].Typ, depth-1) {
+						found = true
+					}
+				}
+			}
+			if !found {
+				return false
+			}
+		}
+		return true
+	case TLIST, TSET:
+		ka, ok1 := TChildren(a, t, depth)
+		kb, ok2 := TChildren(b, t, depth)
+		if !ok1 || !ok2 || len(ka) != len(kb) || a[0] != b[0] {
+			return false
+		}
+		for i := range ka {
+			if !TDeepEq(a[ka[i].Start:ka[i].End], b[kb[i].Start:kb[i].End], ka[i].Typ, depth-1) {
+				return false
+			}
+		}
+		return true
+	}
+	return BytesEq(a, 0, len(a), b, 0, len(b))
+}
